@@ -38,6 +38,10 @@ structure WantOK (E : Ref → Prop) (p : Pool) : Prop where
          (¬ E (.spawner m) → r.frame = .waitMapSem ∧ r.outcome = none ∧ (w.st ≠ .pending → r.sched = true))
   me : ∀ m r, p.reqs[m]? = some r → ¬ E (.spawner m) → r.outcome = none → r.frame = .waitMapSem →
          r.mapSem.waiters ≠ []
+  /-- a spawner whose asyncio Task is done has left its coroutine (`finishMeta` sets both at once; without this clause
+  a request with an outcome but frame `notStarted`/`waitRoom`/`waitMapSem` — unreachable, but allowed by the other clauses —
+  could queue a waiter entry in `waitRoom`/`waitMapSem`, breaking `pw`/`mw`) -/
+  od : ∀ m r, p.reqs[m]? = some r → ¬ E (.spawner m) → r.outcome.isSome = true → r.frame = .done
   /-- a spawner whose handle is being run (past the removal of its waiter entry) has no entry anywhere -/
   ce : ∀ m, E (.spawner m) → m ∉ owners p.sem.waiters ∧ ∀ (r : Req), p.reqs[m]? = some r → r.mapSem.waiters = []
 
